@@ -77,7 +77,7 @@ def run(tier):
     rp = l3.Replay(b, v, cs, "checks.c04:judge", variants=2 if tier == "quick" else 4)
     states = trans = 0
     plan = [("RedactorEW", {}), ("RedactorFree", {"FreeDepth": "1"}),
-            ("RedactorTW", {"TWShapeKinds": '{"s","sa","os","aos"}' if tier == "quick" else "{}"})]
+            ("RedactorTW", {"TWShapeKinds": '{"s","sa","os","aos","aas","aaos"}' if tier == "quick" else "{}"})]
     if tier == "thorough":
         plan.append(("RedactorFree", {"FreeDepth": "2", "FreeSlots": '{"filter","pipeline"}'}))
     for mod, defs in plan:
@@ -87,6 +87,8 @@ def run(tier):
         states += t.distinct
         trans += t.generated
     rp.finish()
+    for s in rp.stray_samples[:3]:
+        v.violation("an emitted line is not a JSON object carrying the line's id (its content was altered): %s" % s["why"], s)
     v.cov.update({"states": states, "transitions": trans, "traces_validated_against_impl": v.cov["evaluations"],
                   "exhaustive": True, "abstract_cases": rp.records, "flag_sets": [c.desc() for c in cs],
                   "lines_without_output": rp.extra.get("no_output", 0), "crashed_lines": rp.crashes,
